@@ -225,6 +225,50 @@ def F3(ctx):
             ctx.ok("F3", fk, "wakes exactly what take_waker returned", [site_str(prog, fk, wakes[0][0])])
         else:
             ctx.bad("F3", fk, "AtomicWaker::wake must wake the waker returned by take_waker (and nothing else)", fn.loc())
+    # every function that stores a waker into the slot does so unconditionally w.r.t. the slot's previous content (the most
+    # recently registered waker wins) and under the modelled lock
+    writers = 0
+    for k, f2 in prog.fns.items():
+        if not k.startswith(AW) or f2.kind == "Closure":
+            continue
+        inst2 = prog.ident(k)
+        body2 = f2.body
+        stores = []
+        for b in range(body2.n):
+            t = body2.term(b)
+            if t["k"] == "drop" and not body2.blocks[b]["cleanup"] and "deref_mut" in canon(body2.expr_of_place(t["place"])) and "self.waker" in canon(body2.expr_of_place(t["place"])):
+                stores.append(b)
+            for s_ in body2.blocks[b]["stmts"]:
+                if s_["k"] == "=" and s_["lhs"]["p"] and "deref_mut" in canon(body2.expr_of_place(s_["lhs"])) and "self.waker" in canon(body2.expr_of_place(s_["lhs"])) \
+                        and "Some" in canon(body2.expr_of_rvalue(s_["rv"])) and not body2.blocks[b]["cleanup"]:
+                    stores.append(b)
+        if not stores:
+            continue
+        writers += 1
+        cond = []
+        for b in stores:
+            for (e, pol, v, sb) in guard_atoms(body2, b):
+                if "self.waker" in canon(e):
+                    cond.append(canon(e)[:80])
+        locked = any(prog.callee_key(c) in (TRY, ACQ) for (b, t, c) in prog.sites(inst2))
+        if not cond and locked:
+            ctx.ok("F3", k + ":store", "stores the new waker unconditionally, under the modelled lock", [site_str(prog, k, stores[0])])
+        else:
+            ctx.bad("F3", k, "%s stores the waker only depending on the slot's previous content (%s) / without the modelled lock (%s): a stale "
+                    "waker of an earlier task stays registered and wake() does not reach the most recently registered one" % (k, cond[:1], locked),
+                    site_str(prog, k, stores[0]), detail="store")
+    # register_by_ref registers a clone of the waker
+    fk = AW + "register_by_ref"
+    fn = need_fn(ctx, "F3", fk)
+    if fn is not None:
+        inst = prog.ident(fk)
+        regs = [(b, t) for (b, t, c) in prog.sites(inst) if prog.callee_key(c) == AW + "register"]
+        ok = len(regs) == 1 and "Clone" in canon(arg_expr(fn.body, regs[0][1], 1)) and every_path_passes(fn.body, [regs[0][0]])
+        st = [1 for b in range(fn.body.n) for s_ in fn.body.blocks[b]["stmts"] if s_["k"] == "=" and s_["lhs"]["p"] and "self.waker" in canon(fn.body.expr_of_place(s_["lhs"]))]
+        if ok or st:
+            ctx.ok("F3", fk, "registers waker.clone() (by delegation or by its own checked store)", [fn.loc()])
+        else:
+            ctx.bad("F3", fk, "register_by_ref must register a clone of the waker on every path", fn.loc())
     fk = AW + "new"
     fn = need_fn(ctx, "F3", fk)
     if fn is not None:
@@ -244,6 +288,8 @@ def run(ctx):
     F2(ctx)
     F3(ctx)
     W4(ctx)
+    from . import g_sync
+    g_sync.run_all(ctx, ["Y1:notify"])
     row = _notify_new_args(ctx.prog, "future::block_on")
     if row and all((a, b) == (0, 1) for (_, a, b) in row):
         ctx.ok("W5", "future::block_on", "Notify::new(seq_cst=false, spurious=true)", [site_str(ctx.prog, "future::block_on", row[0][0])])
